@@ -43,7 +43,8 @@ def gen_world(rng):
     w = dict(fn=fn, fmt=fmt, relative=rel, relative_arg=rel_arg, num_workers=rng.choice([0, 0, 1, 2, 3]),
              dst_initial=rng.choice(["absent", "absent", "absent", "parent", "empty", "content"]), files=files,
              empty_dirs=(["emp"] if fmt == "raw" and rng.random() < 0.3 else []),
-             n_zips=rng.randint(1, 4) if fmt != "zips" else rng.randint(1, 6), readme=rng.random() < 0.4)
+             n_zips=rng.randint(1, 4) if fmt != "zips" else rng.randint(1, 6), readme=rng.random() < 0.4,
+             tmp_other_device=rng.random() < 0.25)
     return w
 
 
@@ -346,6 +347,8 @@ class Spec(core.PropSpec):
             yield q
         if w["num_workers"]:
             yield core._set(plan, ["world", "num_workers"], 0)
+        if w.get("tmp_other_device"):
+            yield core._set(plan, ["world", "tmp_other_device"], False)
         if w["dst_initial"] != "absent":
             yield core._set(plan, ["world", "dst_initial"], "absent")
         if w["fmt"] != "raw":
@@ -378,6 +381,9 @@ class Spec(core.PropSpec):
             cu.joblib = simfs.FakeJoblib
         try:
             with simfs.SimMachine() as m:
+                if w.get("tmp_other_device"):
+                    # TMPDIR is a separate file system (tmpfs, node-local scratch): rename(2) across it fails with EXDEV
+                    m.fs.add_mount_point(m.tempdir)
                 try:
                     expected = build_source(m, w)
                 except Exception as e:
